@@ -1,5 +1,5 @@
 (* line driver for the checked model of FunctionToken::cleanup (C14).
-   input : one signature per line as hex bytes ("-" = empty)
+   input : one signature per line as hex bytes ("-" = empty, "~" = the NULL POINTER -> cleanup_ptr None)
    mode "model" (default): prints "ok <hex>" (the model's result) or "FAULT" (the checked model
                            returned None: an index out of range or a loop out of fuel)
    mode "oracle": each line is "<hex input> <hex implementation output>"; prints 1/0 = prop_c14_func_b *)
@@ -19,7 +19,7 @@ let () =
       | [a; b] -> print_endline (if prop_c14_func_b (unhex a) (unhex b) then "1" else "0")
       | _ -> print_endline "0"
     end else
-      match cleanup (unhex line) with
+      match (if line = "~" then cleanup_ptr None else cleanup_ptr (Some (unhex line))) with
       | Some r -> print_endline ("ok " ^ hex r)
       | None -> print_endline "FAULT"
   done with End_of_file -> ()
